@@ -79,6 +79,10 @@ func (c11) Gen(seed uint64, run int, tier string) *Plan {
 				p.Actions = append(p.Actions, Action{Kind: "ladd", A: 0, B: b, C: c},
 					Action{Kind: "chat", A: 0, S: fmt.Sprintf("a-%d-%d", run, i)}, Action{Kind: "chat", A: 0, S: fmt.Sprintf("b-%d-%d", run, i)},
 					Action{Kind: "par", A: 2}, Action{Kind: "login", A: o}, Action{Kind: "lremove", A: 0, B: b, C: c})
+			} else if p.Policy.Name != "atomic" && r.Intn(12) == 0 {
+				// an operator logs in on a busy teamserver: its replay is held up (C = 3: its handler is
+				// stalled at a drawn step) while a few hundred events are broadcast; they all follow
+				p.Actions = append(p.Actions, Action{Kind: "par", A: 1, C: 3, D: r.Intn(400), B: 260 + r.Intn(80)}, Action{Kind: "login", A: o})
 			} else if p.Policy.Name != "atomic" && r.Intn(3) == 0 {
 				// an operator logs in while an agent's console output is being distributed: the handler
 				// of the agent's request gets no CPU from some point on (C = 2: fault "stalled
@@ -168,6 +172,17 @@ func (c11) Exec(p *Plan, dir string) *Result {
 					res.Probe("fault:stalled-goroutine")
 				}
 				st.inject(b)
+				if a.C == 3 && gi == 0 {
+					w.Sim.RunSteps(uint64(a.D))
+					stalled = w.Sim.StallRunnable()
+					res.Probe("fault:stalled-goroutine")
+					for k := 0; k < a.B; k++ {
+						st.inject(Action{Kind: "chat", A: 0, S: fmt.Sprintf("burst-%d-%d", i, k)})
+						w.Sim.Run(nil, false)
+					}
+					res.Probe("bursts-of-broadcasts-during-a-login")
+					continue
+				}
 				if a.C == 2 && gi == 0 {
 					w.Sim.RunSteps(uint64(a.D))
 					stalled = w.Sim.StallRunnable()
